@@ -118,6 +118,15 @@ def run(ctx):
             crc_t = t
         if isinstance(node, ast.Call) and call_is(t, CHECKSUM):
             chk_t = t
+    if crc_t is None or chk_t is None:
+        # computed in a helper that was seen through: the calls stand in the conditions of validate's ways out
+        for pc, _x, _n, _st in list(s2.returns) + list(s2.raises):
+            for c_, _tr in pc:
+                for x in subterms(c_):
+                    if call_is(x, CRC) and crc_t is None:
+                        crc_t = x
+                    if call_is(x, CHECKSUM) and chk_t is None:
+                        chk_t = x
     have = crc_t is not None and chk_t is not None
     ctx.ob("C13.b", RESP_VALIDATE, have, "Response.validate computes both the CRC-8 and the additive checksum",
            func=RESP_VALIDATE, file=rv.module.rel, construct="crc8.calculate / Frame.checksum",
@@ -367,25 +376,8 @@ def run(ctx):
         sup_ok = not any(x[0] in ("param", "attr", "loopvar", "await", "iter", "top") for x in subterms(rest))
     if not sup_ok and sup is not None and rets and len(set(rets)) == 1 and rets[0][0] == "loopvar" and strip(sup)[0] == "loopvar" and strip(sup)[2] == rets[0][2]:
         # a flag raised in the loop exactly where a response is appended: False before the loop, True on the back edges that append, unchanged on the others
-        from ..facts import cases, simplify
-        flag, lst = strip(sup), rets[0]
-        loop_ = next((l for l in gs.loops if getattr(l, "lineno", None) == flag[2]), None)
-        info_ = gs.loops.get(loop_) if loop_ is not None else None
-        if info_ is not None and strip(info_["entry"].env.get(flag[1], ("top",))) == ("const", False):
-            okf = True
-            for st_ in info_["ends"] + info_["continues"]:
-                for case in (cases(st_.pc, cap=64) or [[]]):
-                    fv_ = strip(simplify(st_.env.get(flag[1], flag), case))
-                    lv_ = strip(simplify(st_.env.get(lst[1], lst), case))
-                    def paired(lv__, fv__, depth=0):
-                        lv__, fv__ = strip(lv__), strip(fv__)
-                        if lv__[0] == "ite" and fv__[0] == "ite" and lv__[1] == fv__[1] and depth < 8:
-                            return paired(lv__[2], fv__[2], depth + 1) and paired(lv__[3], fv__[3], depth + 1)       # merged after the same test
-                        appended = lv__[0] == "mut" and lv__[1] == "append" and strip(lv__[2]) == lst
-                        return (appended and fv__ == ("const", True)) or (lv__ == lst and fv__ == flag)
-                    if not paired(lv_, fv_):
-                        okf = False
-            sup_ok = okf
+        from ..helpers import flag_tracks_list
+        sup_ok = flag_tracks_list(gs, sup, rets[0])
     ctx.ob("C13.c", GETR, sup_ok, "`supported` is a function of the number of valid responses of this exchange", func=GETR, file=g.module.rel,
            construct="self._supported = len(valid_responses) > 0", fail="`supported` is not derived from the valid-response list (raw frames count)")
     # every _update_state argument comes from _send_command_get_responses
@@ -445,6 +437,13 @@ def run(ctx):
                         break
             per.append(good)
         on_ok = bool(per) and all(per)
+    if not on_ok and on is not None and strip(on)[0] == "loopvar":
+        # a flag raised exactly where a validated response is added to the list that is then applied
+        from ..helpers import flag_tracks_list
+        fl = strip(on)
+        linfo = next((i_ for l, i_ in rs.loops.items() if getattr(l, "lineno", None) == fl[2]), None)
+        lists = sorted({k for st_ in (linfo["ends"] if linfo else []) for k, v in st_.env.items() if k != fl[1] and "." not in k and strip(v)[0] in ("loopvar", "mut")})
+        on_ok = any(from_getr(("loopvar", k, fl[2])) and flag_tracks_list(rs, fl, ("loopvar", k, fl[2])) for k in lists)
     ctx.ob("C13.c", r.qual, on_ok, "`online` is a function of the number of valid responses of this refresh", func=r.qual, file=r.module.rel,
            construct="self._online = len(responses) > 0", fail="`online` is not derived from the validated responses of this refresh")
     cm = prog.module(CMD)
